@@ -5,6 +5,7 @@ use crate::report::{Config, Tier};
 pub mod c01;
 pub mod c02;
 pub mod c04;
+pub mod c05;
 pub mod c06;
 pub mod c07;
 pub mod c08;
@@ -16,6 +17,7 @@ pub mod c16;
 pub mod c17;
 pub mod c18;
 pub mod c19;
+pub mod c20;
 
 pub fn configs(prop: &str, tier: Tier) -> Option<Vec<Box<dyn Config>>> {
     Some(match prop {
@@ -23,6 +25,7 @@ pub fn configs(prop: &str, tier: Tier) -> Option<Vec<Box<dyn Config>>> {
         "C02" => c02::configs_c02(tier),
         "C03" => c02::configs_c03(tier),
         "C04" => c04::configs(tier),
+        "C05" => c05::configs(tier),
         "C06" => c06::configs(tier),
         "C07" => c07::configs(tier),
         "C08" => c08::configs_c08(tier),
@@ -35,6 +38,7 @@ pub fn configs(prop: &str, tier: Tier) -> Option<Vec<Box<dyn Config>>> {
         "C17" => c17::configs(tier),
         "C18" => c18::configs(tier),
         "C19" => c19::configs(tier),
+        "C20" => c20::configs(tier),
         "C09" => c09::configs_c09(tier),
         "C10" => c09::configs_c10(tier),
         _ => return None,
